@@ -65,6 +65,11 @@ func (rv *respValue) serializeBlobErrorString(sb *strings.Builder, data respBlob
 }
 
 func (rv *respValue) serializeSimpleString(sb *strings.Builder, data string) {
+	// a simple string or error is a single line: line breaks (for example in
+	// client input quoted by an error message) would end the reply early
+	if strings.ContainsAny(data, "\r\n") {
+		data = strings.NewReplacer("\r", " ", "\n", " ").Replace(data)
+	}
 	sb.WriteString(fmt.Sprintf("%s\r\n", data))
 }
 
